@@ -426,7 +426,11 @@ class Interp:
             return fn.fn(self, args, kwargs)
         if isinstance(fn, BoundMethod):
             if isinstance(fn.func, tuple) and fn.func[0] == 'model':
-                return self.registry.models[fn.func[1]](self, [fn.obj] + list(args), kwargs)
+                a2, k2 = [fn.obj] + list(args), kwargs
+                node = self._abstract_method_node(fn.func[1]) if kwargs else None
+                if node is not None:
+                    a2, k2 = self.positional_form(node, a2, kwargs)
+                return self.registry.models[fn.func[1]](self, a2, k2)
             if isinstance(fn.func, FuncRef) and getattr(fn.func, 'kind', 'method') == 'static':
                 return self.call(fn.func, args, kwargs)
             return self.call(fn.func, [fn.obj] + list(args), kwargs)
@@ -461,6 +465,20 @@ class Interp:
         if callable(fn) and getattr(fn, '_pyvc_model', False):
             return fn(self, list(args), kwargs)
         raise Unsupported('call of %r' % (fn,))
+
+    def _abstract_method_node(self, name):
+        """AST of the real method an abstract record's method stands for (engine.ABSTRACT_CLASSES), or None"""
+        try:
+            from .engine import ABSTRACT_CLASSES
+            cls, meth = name.rsplit('.', 1)
+            for real in ABSTRACT_CLASSES.get(cls, ()):
+                c = self.repo.resolve(real)
+                f = c.find(meth) if c is not None else None
+                if f is not None and getattr(f, 'node', None) is not None:
+                    return f.node
+        except Exception:       # noqa
+            return None
+        return None
 
     @staticmethod
     def positional_form(node, args, kwargs):
